@@ -127,7 +127,7 @@ type shadowCell struct {
 }
 
 func (x *exec) access(p unsafe.Pointer, write bool, pos string) {
-	xx, t := self()
+	xx, t := selfCount(false)
 	if xx == nil {
 		return
 	}
